@@ -107,6 +107,19 @@ def gen_env(rng):
     return e
 
 
+_FLEET_ROOT = None
+
+
+def _fleet_root():
+    global _FLEET_ROOT
+    if _FLEET_ROOT is None or not os.path.isdir(_FLEET_ROOT):
+        import atexit
+
+        _FLEET_ROOT = tempfile.mkdtemp(prefix="pyab-fleet-%d-" % os.getpid())
+        atexit.register(shutil.rmtree, _FLEET_ROOT, True)
+    return _FLEET_ROOT
+
+
 class Node:
     def __init__(self, name, env):
         self.name = name
@@ -132,7 +145,9 @@ class Node:
         cwd = "/"
         if env_spec["cwd"] in ("tmp", "deleted"):
             # deterministic name (a program that folds its cwd into an assignment must replay exactly)
-            base = os.path.join(tempfile.gettempdir(), "pyab-node-%d" % env_spec.get("entropy", 0))
+            # (the parent directory is private to this harness process, so concurrent checks cannot collide;
+            #  only the last path component is a function of the scenario)
+            base = os.path.join(_fleet_root(), "pyab-node-%d" % env_spec.get("entropy", 0))
             self.tmp = base
             k = 0
             while True:
